@@ -314,7 +314,7 @@ def _post_shapes(cx, spec):
     import random
     from . import rng as rng_mod
     p = cx.p
-    if not any(p.get(k, 0) > 0 for k in ("p_empty_routing", "p_routing_shorthand", "p_keyword_update_field", "p_struct_fields", "p_mixin_mixed_body", "p_stdlib_file_name", "p_mistyped_max_results", "p_streamed_list")):
+    if not any(p.get(k, 0) > 0 for k in ("p_empty_routing", "p_routing_shorthand", "p_keyword_update_field", "p_struct_fields", "p_mixin_mixed_body", "p_stdlib_file_name", "p_mistyped_max_results", "p_streamed_list", "p_nested_lro_types")):
         return
     prng = random.Random(int(rng_mod.digest(spec)[:16], 16))
     methods = [(fs, s, m) for fs, s, m in all_methods(spec)]
@@ -386,6 +386,22 @@ def _post_shapes(cx, spec):
             if m.get("http"):
                 sm["http"] = {"verb": m["http"]["verb"], "path": m["http"]["path"] + ":stream"}
             s["methods"].append(sm)
+    if prng.random() < p.get("p_nested_lro_types", 0):
+        # operation_info types NESTED in another message, named relative to the package (`RebuildWidgetJob.Result`) or in full
+        cands = [(fs, s, m) for fs, s, m in methods if m.get("lro") and not any(x["name"] == m["name"] + "Job" for x in fs["messages"])]
+        if cands:
+            fs, s, m = prng.choice(cands)
+            job = m["name"] + "Job"
+            fs["messages"].append({"name": job, "fields": [{"name": "name", "number": 1, "type": "string"}], "messages": [
+                {"name": "Result", "fields": [{"name": "name", "number": 1, "type": "string"}, {"name": "rebuilt_parts", "number": 2, "type": "int32"}]},
+                {"name": "Metadata", "fields": [{"name": "progress", "number": 1, "type": "int32"}, {"name": "stage", "number": 2, "type": "string"}]}]})
+            def w(x):
+                return x if prng.random() < 0.6 else fs["package"] + "." + x
+            c = prng.random()
+            if c < 0.7:
+                m["lro"]["response_type"] = w(job + ".Result")
+            if c > 0.4:
+                m["lro"]["metadata_type"] = w(job + ".Metadata")
     if prng.random() < p.get("p_mixin_mixed_body", 0):
         # a mixin http rule whose bindings do not agree on `body` (one carries "*", another none: its fields travel in the query)
         rules = [r for r in ((spec.get("service_yaml") or {}).get("http") or {}).get("rules", [])
